@@ -3,7 +3,7 @@
    circumscribed radius, the chamfer outline and its clockwise winding. Simplicity, tangency of the
    circumscribed edges, the rounded-rectangle box and the winding of the trig outlines are decided by
    the oracles on sampled outputs (exploration), see DESIGN.md. *)
-From Coq Require Import Reals ZArith List.
+From Coq Require Import Reals ZArith List Lia.
 From SCAD Require Import Base.Num Base.NumR Base.Vec Base.Vec_proofs Base.Rot_proofs Geom.Poly Geom.Dim2 Geom.Dim2_proofs.
 Import ListNotations.
 Local Open Scope R_scope.
